@@ -70,6 +70,7 @@ static Fields gen(Tape &t) {
   uint64_t mask = 0;
   if (t.chance(1, 2)) { int k = t.range(1, 4); for (int i = 0; i < k; i++) mask |= 1ull << t.below(40); }
   f.kv.emplace_back("faultmask", std::to_string((unsigned long long)mask));
+  f.seti("selftest", t.chance(7, 8) ? 0 : 1);
   return f;
 }
 
@@ -101,6 +102,15 @@ static Verdict check(const Fields &f) {
     memset(&ms[k], 0, sizeof ms[k]);
     VF_REQUIRE(uriCompleteMemoryManager(&ms[k], &be.mm) == 0, "uriCompleteMemoryManager failed on a malloc/free backend");
     VF_REQUIRE(ms[k].malloc && ms[k].calloc && ms[k].realloc && ms[k].reallocarray && ms[k].free, "completed manager lacks a function");
+  }
+  if (f.geti("selftest")) {
+    // the library's own manager self-test on a completed manager (no backend faults): passes, ledger ends empty
+    uint64_t keep = backends[0].fail_mask;
+    backends[0].fail_mask = 0;
+    VF_REQUIRE(uriTestMemoryManager(&ms[0]) == 0, "uriTestMemoryManager rejects a manager completed from malloc/free");
+    VF_REQUIRE(backends[0].outstanding() == 0 && backends[0].bad_free == 0, "uriTestMemoryManager left the completed manager's backend unbalanced");
+    backends[0].fail_mask = keep;
+    backends[0].reset_counts();
   }
   std::vector<Blk> live;
   unsigned char nextPat = 1;
